@@ -313,7 +313,15 @@ fn prefilter(args: &[String]) {
                 dir: if r.chance(1, 4) { Some(*r.pick(&[rustybuzz::Direction::LeftToRight, rustybuzz::Direction::RightToLeft, rustybuzz::Direction::TopToBottom])) } else { None },
                 flags: if r.chance(1, 3) { 0x40 } else { 0 } | 3,
                 level: r.below(3) as u8,
-                features: if r.chance(1, 5) { vec!["liga=0".to_string()] } else if r.chance(1, 5) { vec!["smcp".to_string(), "ss01".to_string()] } else { vec![] },
+                // feature values > 0 reach alternate substitutions (aalt / salt / cvNN), whose outputs must enter the digest too
+                features: match r.below(10) {
+                    0 | 1 => vec!["liga=0".to_string()],
+                    2 | 3 => vec!["smcp".to_string(), "ss01".to_string()],
+                    4 => vec!["aalt=1".to_string()],
+                    5 => vec![format!("aalt={}", 1 + r.below(4)), "salt=1".to_string()],
+                    6 => vec!["salt=2".to_string(), "cv01=1".to_string(), "ss02".to_string()],
+                    _ => vec![],
+                },
                 ..Default::default()
             };
             let d1 = data.clone();
